@@ -25,18 +25,32 @@ void run_case(vf::ctx_t& c)
     const auto& xs      = function.center();
 
     // premise: sharp minimum (checked on random points at several scales)
+    vf::rng_t prng(vf::mix(c.seed, 0x5eedULL)); // own stream: the premise checks never shift the case
     for (int t = 0; t < 100; ++t)
     {
         vector_t   x{n};
-        const auto r = rng.loguniform(1e-6, 10.0);
+        const auto r = prng.loguniform(1e-6, 10.0);
         for (int i = 0; i < n; ++i)
         {
-            x(i) = xs(i) + r * rng.normal();
+            x(i) = xs(i) + r * prng.normal();
         }
-        const auto f = function.vgrad(x);
+        vector_t   g{n};
+        const auto f = function.vgrad(x, g);
         if (!(f >= (x.vector() - xs).norm() * (1.0 - 1e-12)))
         {
             c.inconclusive("premise-not-sharp");
+            return;
+        }
+        // premise: convex with valid sub-gradients (sub-gradient inequality against x* and a random point)
+        vector_t z{n};
+        for (int i = 0; i < n; ++i)
+        {
+            z(i) = xs(i) + r * prng.normal();
+        }
+        const auto fz = function.vgrad(z);
+        if (!(fz >= f + g.dot(z - x) - 1e-9 * (1.0 + std::fabs(f))) || !(0.0 >= f + g.vector().dot(xs - x.vector()) - 1e-9 * (1.0 + std::fabs(f))))
+        {
+            c.inconclusive("premise-subgradient-invalid");
             return;
         }
     }
@@ -61,14 +75,16 @@ void run_case(vf::ctx_t& c)
     const bool ell     = id == "ellipsoid";
     const auto epsilon = rng.loguniform(1e-8, 1e-3);
     auto       solver  = solver_t::all().get(id);
-    const auto max_evals = ell ? 20000 : rng.integer(100, 20000);
+    // quick tier: mostly moderate budgets (a non-converging bundle solve costs one QP per iteration)
+    const auto max_evals = ell ? 20000 : ((c.args.thorough() || rng.chance(0.1)) ? rng.integer(100, 20000) : rng.integer(100, 3000));
     solver->parameter("solver::epsilon")   = epsilon;
     solver->parameter("solver::max_evals") = max_evals;
     std::string config;
     if (!ell)
     {
         // the bundle size over the whole quantifier [2, 100], small sizes over-represented
-        const auto bsize = rng.chance(0.4) ? rng.integer(2, 8) : rng.integer(2, 100);
+        const auto bmax  = std::atoll(c.args.get("bmax", "100").c_str());
+        const auto bsize = rng.chance(0.4) ? rng.integer(2, std::min<int64_t>(8, bmax)) : rng.integer(2, bmax);
         solver->parameter("solver::" + id + "::bundle::max_size") = bsize;
         config = "bundle::max_size=" + std::to_string(bsize) + " ";
         if (rng.chance(0.5))
@@ -105,10 +121,14 @@ void run_case(vf::ctx_t& c)
         return j;
     };
 
+    if (c.args.verbose)
+    {
+        vf::out_t::line("INFO about-to-solve " + witness(nullptr).str());
+    }
     solver_state_t state;
     try
     {
-        state = solver->minimize(cf, x0, make_null_logger());
+        state = solver->minimize(cf, x0, c.args.get("log") == "1" ? make_stdout_logger() : make_null_logger());
     }
     catch (const budget_exceeded_t&)
     {
@@ -138,7 +158,11 @@ void run_case(vf::ctx_t& c)
         c.maxc(ell ? "ellipsoid_gap_over_bound_permille" : "bundle_gap_over_bound_permille", static_cast<int64_t>(1000.0 * gap / bound));
         if (!(gap <= bound))
         {
-            c.violation("C03|converged-not-eps-optimal|" + id, witness(&state).kv("gap", gap).kv("bound", bound).kv("dist", dist));
+            // qualifier: did the solver wander to a point with an astronomically large value on the way?  (a collapsed
+            // proximity parameter sends the trial point ~1e14 away; the linearisation error of that cut loses all digits)
+            const bool huge = cf.m_max_abs_f > 1e10 * (1.0 + std::fabs(function.vgrad(x0)));
+            c.violation("C03|converged-not-eps-optimal|" + id + (huge ? "|after-astronomic-trial-point" : "|regular"),
+                        witness(&state).kv("gap", gap).kv("bound", bound).kv("dist", dist).kv("max_abs_f_seen", cf.m_max_abs_f));
         }
         if (cf.m_f + cf.m_g >= 6)
         {
